@@ -296,7 +296,9 @@ fn run_typed<F: Float>(case: &Case, viols: &mut Vec<Violation>) -> Counters {
             for j in 0..n {
                 // Gaussian values span many magnitudes: purely relative; Linear / Polynomial values are
                 // sums of products (cancellation): relative to the largest entry of the matrix
-                let abs = if case.kernel == "gaussian" { 0.0 } else { tol.rel * kscale };
+                // (below the smallest normal number of the float type relative precision is lost)
+                let tiny = if is32 { f32::MIN_POSITIVE as f64 } else { f64::MIN_POSITIVE };
+                let abs = if case.kernel == "gaussian" { tiny } else { tol.rel * kscale };
                 if img.stored[i][j] && !close(img.m[i][j], kr[i][j], tol.rel, abs) {
                     viols.push(Violation::new(
                         format!("{}.entry.wrong_value", kname),
@@ -584,7 +586,7 @@ fn cluster_sweep<F: Float>(case: &Case, kernel: &Kernel<F>, img: &Image, at_kern
             }
             let out = linkref::admissible(link, &dis, Stop::Count(c), tie_rel);
             if out.overflow {
-                bump(cnt, "reference_overflow", 1);
+                bump(cnt, if n <= 8 { "reference_overflow_on_small_sets" } else { "reference_overflow_on_large_sets" }, 1);
             }
             if out.degenerate || out.overflow {
                 bump(cnt, "reference_degenerate_skipped", 1);
@@ -679,7 +681,7 @@ fn cluster_sweep<F: Float>(case: &Case, kernel: &Kernel<F>, img: &Image, at_kern
             }
             let out = linkref::admissible(link, &dis, Stop::Below { t, inclusive: false }, tie_rel);
             if out.overflow {
-                bump(cnt, "reference_overflow", 1);
+                bump(cnt, if n <= 8 { "reference_overflow_on_small_sets" } else { "reference_overflow_on_large_sets" }, 1);
             }
             if out.degenerate || out.overflow {
                 bump(cnt, "reference_degenerate_skipped", 1);
